@@ -192,6 +192,40 @@ func c07Run(env *fw.Env, raw json.RawMessage) fw.Outcome {
 			seen[h] = true
 		}
 	}
+	// Order model ("newest first", "a new edit discards the redo branch"): S is the timeline of
+	// shown buffers of this line, P the set of timeline indexes the editor may be on (several
+	// when the same text was shown more than once). Undo must land strictly below, redo strictly
+	// above a possible index; an edit cuts the timeline above the highest possible index.
+	S := []string{initial}
+	P := map[int]bool{0: true}
+	maxP := func() int {
+		m := 0
+		for q := range P {
+			if q > m {
+				m = q
+			}
+		}
+		return m
+	}
+	move := func(b string, down bool) bool {
+		np := map[int]bool{}
+		for q := range S {
+			if S[q] != b {
+				continue
+			}
+			for pp := range P {
+				if down && q < pp || !down && q > pp {
+					np[q] = true
+				}
+			}
+		}
+		if len(np) == 0 {
+			return false
+		}
+		P = np
+		return true
+	}
+	orderOK := !c.Walk
 	hasEdit, hasUndo := false, false
 	editSinceUndo := false // R2: a buffer-changing edit happened after the last undo/redo chain began
 	inChain := false
@@ -210,7 +244,25 @@ func c07Run(env *fw.Env, raw json.RawMessage) fw.Outcome {
 				o.Viol("undo-produced-a-buffer-never-shown|"+c.Mode+"|"+lenClass, ctx+fmt.Sprintf(" step %d (%s): buffer %q is none of the %d earlier states of this call", i, tag, b, len(seen)))
 			}
 			inChain, editSinceUndo = true, false
+			if orderOK && b != prev {
+				o.Add("undo_steps_checked_against_the_timeline", 1)
+				if !move(b, true) {
+					orderOK = false
+					if seen[b] {
+						o.Viol("undo-produced-a-state-that-is-not-an-earlier-live-state|"+c.Mode+"|"+lenClass, ctx+fmt.Sprintf(" step %d (%s): buffer %q was shown before but is not below the current state on the live timeline %q (a state undone and then replaced by a new edit came back, or the order is not newest first)", i, tag, b, S))
+					}
+				}
+			}
 		case tag == "redo" || tag == "r1-redo":
+			if orderOK && b != prev {
+				o.Add("redo_steps_checked_against_the_timeline", 1)
+				if !move(b, false) {
+					orderOK = false
+					if seen[b] {
+						o.Viol("redo-produced-a-state-that-was-not-undone|"+c.Mode+"|"+lenClass, ctx+fmt.Sprintf(" step %d: buffer %q is not above the current state on the live timeline %q", i, b, S))
+					}
+				}
+			}
 			if inChain && editSinceUndo && b != prev {
 				o.Viol("redo-after-a-new-edit-changed-the-buffer|"+c.Mode+"|"+lenClass, ctx+fmt.Sprintf(" step %d: a new edit followed the undo, yet redo changed %q into %q", i, prev, b))
 			}
@@ -224,6 +276,8 @@ func c07Run(env *fw.Env, raw json.RawMessage) fw.Outcome {
 				if inChain {
 					editSinceUndo = true
 				}
+				S = append(S[:maxP()+1], b)
+				P = map[int]bool{len(S) - 1: true}
 			}
 		}
 		seen[b] = true
